@@ -28,7 +28,9 @@ Checks(e) ==
     [] e.op = "c18ev" /\ e.ev = "put" ->
          { <<"put-by-the-holder", HeldBy(e.obj) = e.g>>,
            <<"fields-reset-before-put", e.clean>> }
-    [] e.op = "c18res" -> { <<"result-equals-sequential-result", e.base = e.conc>> }
+    [] e.op = "c18res" -> { <<"result-equals-sequential-result", e.base = e.conc>>,
+                            \* a destination that fails does so with an error private to one operation: it shows up in no other result
+                            <<"no-operation-sees-the-failure-of-another", Has(e, "alien") => ~e.alien>> }
     [] e.op = "c18frame" -> { <<"each-send-gets-its-own-reply", e.mismatch = 0 /\ e.errors = 0>> }
     [] e.op = "c18sched" ->
          \* a TLC-generated interleaving of concurrent Sends forced through the gate hook
